@@ -6,6 +6,8 @@ import SfntV.Proofs.OtlCoverage
 import SfntV.Proofs.OtlClassDef
 import SfntV.Proofs.OtlGsub
 import SfntV.Proofs.OtlLookupList
+import SfntV.Proofs.OtlGpos
+import SfntV.Proofs.OtlFeatureList
 
 namespace SfntV.Props.C08
 open SfntV SfntV.Otl
@@ -60,6 +62,13 @@ theorem C08_cov_minimal (gs : List Nat) (h : Cov.Valid gs) :
     unfold Cov.encodeW
     simp only [Cov.fmt1Len, Cov.fmt2Len, Cov.rangeCount_eq_numRuns gs h.small]
     split <;> simp
+
+/-- The Go value is a map `{gs[i] ↦ i}` (`Cov.tableOf gs`); in whatever order it is iterated,
+`encInfo` recovers the glyph list `gs` the theorems above are stated for — so the encoder's output
+does not depend on the iteration order. -/
+theorem C08_cov_order_independent (gs : List Nat) (m : List (Nat × Int))
+    (hp : m.Perm (Cov.tableOf gs)) : Cov.revOf m = .ok gs :=
+  Cov.revOf_table gs m hp
 
 /-! Non-vacuity: a table with two runs is valid, is written in format 2 (16 < 4 + 2·9), and reads back. -/
 
@@ -208,7 +217,21 @@ theorem C08_st_len_gsub2_1_3_1 (rev : List Nat) (seqs : List (List Nat)) (h : Co
     ∃ b, Gsub.encodeSeq rev seqs = .ok b ∧ Gsub.encodeLenSeq rev seqs = .ok b.length :=
   let ⟨b, h1, _, h3⟩ := Gsub.roundtripSeq 2 (Or.inl rfl) rev seqs h hl hs hfit; ⟨b, h1, h3⟩
 
+/-- GSUB 4.1 (Ligature Substitution): one ligature set per covered glyph, all glyph ids 16-bit
+values (`Gsub.LigOk`).  If the table without its coverage (`lig41Total`, the coverage offset) fits
+16 bits, decode ∘ encode = id and the declared size is the emitted size; otherwise the encoder
+refuses (the panic that exists in the code). -/
+theorem C08_st_roundtrip_gsub4_1 (rev : List Nat) (repl : List (List Gsub.Lig)) (h : Cov.Valid rev)
+    (hl : repl.length = rev.length) (hs : ∀ s ∈ repl, ∀ l ∈ s, Gsub.LigOk l) :
+    (Gsub.lig41Total repl ≤ 0xFFFF →
+      ∃ b, Gsub.encode41 rev repl = .ok b ∧ Gsub.readSubtable 4 b = .ok (.s41 rev.zipIdx repl) ∧
+        Gsub.encodeLen41 rev repl = .ok b.length) ∧
+    (Gsub.lig41Total repl > 0xFFFF → ∃ s, Gsub.encode41 rev repl = .panic s) :=
+  ⟨Gsub.roundtrip41 rev repl h hl hs, Gsub.refusal41 rev repl h⟩
+
 /-! Non-vacuity -/
+example : Gsub.encode41 [30] [[⟨[31, 32], 90⟩, ⟨[], 91⟩]] =
+    .ok (wordsToBytes [1, 26, 1, 8, 2, 6, 14, 90, 3, 31, 32, 91, 1, 1, 1, 30]) := by decide
 example : Gsub.encode12 [4, 5, 9] [100, 101, 7] =
     .ok (wordsToBytes [2, 12, 3, 100, 101, 7, 1, 3, 4, 5, 9]) := by decide
 example : Gsub.encodeSeq [4, 5] [[1, 2, 3], []] =
@@ -254,5 +277,84 @@ example : LL.encode exLL = .ok (wordsToBytes [2, 6, 26, 1, 0, 1, 8, 1, 6, 5, 1, 
     [1, 2, 3, 4]) := by decide
 example : LL.recovers (wordsToBytes [2, 6, 26, 1, 0, 1, 8, 1, 6, 5, 1, 1, 40, 4, 16, 2, 12, 15, 3] ++
     [1, 2, 3, 4]) 7 exLL = true := by decide
+
+/-! ## GPOS value records, GPOS 1.1 and 1.2 (models of the repaired `gpos.go`)
+
+A `*GposValueRecord` is `none` (nil) or its eight 16-bit fields (`Gpos.VROk`). -/
+
+/-- A value record written under any format that covers its non-zero fields reads back as itself
+(`masked`: what `readValueRecord` returns for what `encode(format)` wrote). -/
+theorem C08_valuerecord_roundtrip (vr : Gpos.VR) (hvr : Gpos.VROk vr) (tail : List Nat) :
+    Gpos.vrRead (Gpos.getFormat vr) (Gpos.vrWords vr (Gpos.getFormat vr) ++ tail) = .ok (vr, tail) ∧
+    (Gpos.vrWords vr (Gpos.getFormat vr)).length * 2 = Gpos.vrLen (Gpos.getFormat vr) := by
+  constructor
+  · rw [Gpos.vrRead_spec, Gpos.masked_of_covers vr hvr _ (Gpos.getFormat_eq_zero vr) (Gpos.getFormat_covers vr)]
+  · rw [Gpos.vrWords_length vr _ (Gpos.getFormat_lt vr)]; unfold Gpos.vrLen; omega
+
+/-- GPOS 1.1: decode ∘ encode = id and the declared size is the emitted size. -/
+theorem C08_st_roundtrip_gpos1_1 (rev : List Nat) (h : Cov.Valid rev) (vr : Gpos.VR) (hvr : Gpos.VROk vr) :
+    ∃ b, Gpos.encode11 rev vr = .ok b ∧ Gpos.readSubtable 1 b = .ok (.s11 rev.zipIdx vr) ∧
+      Gpos.encodeLen11 rev vr = .ok b.length :=
+  Gpos.roundtrip11 rev h vr hvr
+
+/-- GPOS 1.2: with one record per covered glyph, fewer than 65536 records and a coverage offset
+that fits 16 bits, the subtable reads back with every record in the explicit normal form of the
+common value format (`masked`), and the declared size is the emitted size.  If all records are
+non-nil (or all nil) the normal form is the record itself (`C08_gpos1_2_normal_form`).
+(Excluded: 65536 records, which needs all of them nil — then `valueCount` is written as 0.) -/
+theorem C08_st_roundtrip_gpos1_2 (rev : List Nat) (h : Cov.Valid rev) (vrs : List Gpos.VR)
+    (hl : vrs.length = rev.length) (hvr : ∀ vr ∈ vrs, Gpos.VROk vr) (hn : vrs.length < 65536)
+    (hfit : 8 + Gpos.vrLen (Gpos.orFormat vrs) * vrs.length ≤ 0xFFFF) :
+    ∃ b, Gpos.encode12 rev vrs = .ok b ∧
+      Gpos.readSubtable 1 b =
+        .ok (.s12 rev.zipIdx (vrs.map fun vr => Gpos.masked vr (Gpos.orFormat vrs))) ∧
+      Gpos.encodeLen12 rev vrs = .ok b.length :=
+  Gpos.roundtrip12 rev h vrs hl hvr hn hfit
+
+theorem C08_gpos1_2_normal_form (vrs : List Gpos.VR) (hvr : ∀ vr ∈ vrs, Gpos.VROk vr)
+    (hu : (∀ vr ∈ vrs, vr = none) ∨ (∀ vr ∈ vrs, vr ≠ none)) :
+    vrs.map (fun vr => Gpos.masked vr (Gpos.orFormat vrs)) = vrs :=
+  Gpos.masked_id_of_uniform vrs hvr hu
+
+/-- GPOS 2.1 (pair adjustment, format 1), given as `CovAndAdjust` presents the Go map: first glyphs
+(a valid coverage list) and, per first glyph, the pairs (second glyph, two value records)
+(`Gpos.PairSetOk`: 16-bit second glyphs, well-typed records; fewer than 65536 pairs per first glyph).
+Whenever the encoder returns bytes, they read back as the same pair sets with every record in the
+normal form of the two common value formats (`normSet`), and `encodeLen` is the emitted size.  The
+encoder never returns an error value: it writes or refuses (panic, when a pair-set offset does not
+fit 16 bits). -/
+theorem C08_st_roundtrip_gpos2_1 (firsts : List Nat) (h : Cov.Valid firsts) (sets : List Gpos.PairSet)
+    (hl : sets.length = firsts.length) (hS : ∀ s ∈ sets, Gpos.PairSetOk s ∧ s.length < 65536) :
+    (∀ b, Gpos.encode21 firsts sets = .ok b →
+      Gpos.readSubtable 2 b = .ok (.s21 firsts.zipIdx
+        (sets.map (Gpos.normSet (Gpos.orFormat1 sets) (Gpos.orFormat2 sets)))) ∧
+      Gpos.encodeLen21 firsts sets = .ok b.length) ∧
+    (∀ e, Gpos.encode21 firsts sets ≠ .err e) :=
+  ⟨fun b hb => Gpos.roundtrip21 firsts h sets hl hS b hb, Gpos.encode21_not_err firsts sets⟩
+
+/-! Non-vacuity -/
+example : Gpos.encode21 [5] [[(7, some [0, 0, 65486, 0, 0, 0, 0, 0], none)]] =
+    .ok (wordsToBytes [1, 12, 4, 0, 1, 18, 1, 1, 5, 1, 7, 65486]) := by decide
+example : Gpos.VROk (some [0, 0, 65486, 0, 0, 0, 0, 0]) := ⟨rfl, by decide⟩
+example : Gpos.encode11 [7, 8] (some [0, 0, 65486, 0, 0, 0, 0, 0]) =
+    .ok (wordsToBytes [1, 8, 4, 65486, 1, 2, 7, 8]) := by decide
+
+/-! ## Feature list (`FeatureListInfo.encode` / `readFeatureList`)
+
+`FL.Dom fl`: every tag has four bytes, every feature has fewer than 65536 lookup indices, each a
+16-bit value.  `FL.offsets fl (2 + 6·n)` are the offsets of the feature tables. -/
+
+/-- If the last feature table starts at an offset that fits 16 bits, the list reads back unchanged;
+otherwise the encoder refuses (the panic that exists in the code) — no offset is written wrapped. -/
+theorem C08_featurelist_roundtrip (fl : List FL.Feature) (D : FL.Dom fl) :
+    ((FL.offsets fl (2 + 6 * fl.length)).getLastD 0 ≤ 0xFFFF →
+      ∃ b, FL.encode fl = .ok b ∧ FL.read b = .ok fl) ∧
+    ((FL.offsets fl (2 + 6 * fl.length)).getLastD 0 > 0xFFFF → ∃ s, FL.encode fl = .panic s) :=
+  ⟨FL.roundtrip fl D, FL.refusal fl⟩
+
+example : FL.Dom [⟨[107, 101, 114, 110], [0, 2]⟩, ⟨[108, 105, 103, 97], []⟩] := ⟨by decide⟩
+example : FL.encode [⟨[107, 101, 114, 110], [0, 2]⟩, ⟨[108, 105, 103, 97], []⟩] =
+    .ok ([0, 2, 107, 101, 114, 110, 0, 14, 108, 105, 103, 97, 0, 22] ++ wordsToBytes [0, 2, 0, 2, 0, 0]) := by
+  decide
 
 end SfntV.Props.C08
